@@ -89,7 +89,25 @@ def world():
     class HAny:
         x: _t.Any
 
+    # an aggregate field whose pattern is *inferred* from the schema registered for the key type, and an `object_serialization` view whose output
+    # fields are derived from the fields of A (class aliaser, set_object_fields): both read registries through helpers of their own
+    from apischema.metadata import properties as _properties
+    from apischema.objects import object_serialization as _object_serialization
+    KeyT = _t.NewType("KeyT", str)
+    schema(pattern="^k_")(KeyT)
+
+    @dataclass
+    class PF:
+        known: int = 0
+        extra: _t.Mapping[KeyT, int] = field(default_factory=dict, metadata=_properties(...))
+    view_A = _object_serialization(A, [...])
+
     OBS = {
+        "deser_PF_k": lambda: deserialize(PF, {"k_x": 1}),
+        "deser_PF_z": lambda: deserialize(PF, {"z_x": 1}),
+        "dschema_PF": lambda: deserialization_schema(PF),
+        "ser_A_view": lambda: serialize(A, A(3, None), conversion=view_A),
+        "sschema_A_view": lambda: serialization_schema(A, conversion=view_A),
         "deser_A": lambda: deserialize(A, {"some_field": 1, "x": 2}),
         "deser_A_bad": lambda: deserialize(A, {"some_field": -5, "someField": "q"}),
         "deser_A_str": lambda: deserialize(A, {"some_field": "s"}),
@@ -145,6 +163,7 @@ def world():
             ("order(A)", ("CacheAwareDict", "__setitem__"), lambda: order({"other": order(-1 if b else 1)})(A)),
             ("schema(A)", ("registry", "apischema.schemas._schemas"), lambda: schema(max_props=1 if b else 5)(A)),
             ("type_name(A)", ("CacheAwareDict", "__setitem__"), lambda: type_name("AA" if b else "A")(A)),
+            ("schema(KeyT): the pattern an aggregate field infers", ("registry", "apischema.schemas._schemas"), lambda: schema(pattern="^z_" if b else "^k_")(KeyT)),
             ("set_object_fields(A)", ("CacheAwareDict", "__setitem__" if b else "__delitem__"),
              lambda: set_object_fields(A, [ObjectField("some_field", int, required=True)] if b else None)),
             ("validator(owner=B)", ("nested", "apischema.validation.validators._validators"),
